@@ -175,6 +175,9 @@ def corruptions(tier):
         "paren-garbage": "module zq\n  integer :: x((((\n  real(kind= :: y\n  type(( :: z\nend module zq\n",
         "use-garbage": "module zq\n  use , only\n  use shapes, only: =>\nend module zq\n",
         "include-missing": "module zq\n  include 'not_there.inc'\nend module zq\n",
+        # a file that includes itself ({self} = its own name): it has no finite expansion and cannot be parsed
+        "include-itself": "module zq\n  integer :: x\n  include '{self}'\nend module zq\n",
+        "include-itself-twice": "module zq\n  include '{self}'\n  integer :: x\n  include '{self}'\nend module zq\n",
         "binary": bytes(range(256)) * 4,
         "long-line-quote": "x = '" + "a" * 200 + "\n",
         "many-quotes": ("'" * 61 + "\n") * 2,
@@ -207,30 +210,54 @@ class Timeout(BaseException):
     pass
 
 
+_ARMED = [False]
+
+
 def _alarm(signum, frame):
-    raise Timeout()
+    if _ARMED[0]:
+        raise Timeout()
+
+
+def _arm(cpu_seconds, wall_seconds=None):
+    """The timers are periodic: an alarm that goes off at the recursion limit cannot even enter its handler (RecursionError,
+    swallowed by whatever `except Exception` is around), and code under test may swallow the Timeout itself: the next
+    period raises it again until the guarded call is left."""
+    old = (signal.signal(signal.SIGVTALRM, _alarm), signal.signal(signal.SIGALRM, _alarm))
+    _ARMED[0] = True
+    signal.setitimer(signal.ITIMER_VIRTUAL, cpu_seconds, 0.2)
+    if wall_seconds:
+        signal.setitimer(signal.ITIMER_REAL, wall_seconds, 1.0)
+    return old
+
+
+def _disarm(old):
+    _ARMED[0] = False
+    signal.setitimer(signal.ITIMER_VIRTUAL, 0)
+    signal.setitimer(signal.ITIMER_REAL, 0)
+    signal.signal(signal.SIGVTALRM, old[0])
+    signal.signal(signal.SIGALRM, old[1])
 
 
 def guarded_build(files, order=None, **extra_opts):
     # the watchdog counts the CPU time of this process (a runaway regex burns CPU), so that a loaded machine cannot
     # turn a slow but finite run into a reported hang; a generous wall-clock limit backs it up
-    old_v = signal.signal(signal.SIGVTALRM, _alarm)
-    old_r = signal.signal(signal.SIGALRM, _alarm)
-    signal.setitimer(signal.ITIMER_VIRTUAL, WATCHDOG_S)
-    signal.setitimer(signal.ITIMER_REAL, WATCHDOG_S * 20)
     t = time.time()
+    old = _arm(WATCHDOG_S, WATCHDOG_S * 20)
     try:
-        if order:
-            fordrun.FILE_ORDER = lambda fl: sorted(fl, key=lambda p: order.index("src/" + p.name))
-        r = fordrun.build_fast(files, dict(display=["public", "private", "protected"], proc_internals=True, **extra_opts))
-        return r, time.time() - t, False
-    except Timeout:
+        try:
+            if order:
+                fordrun.FILE_ORDER = lambda fl: sorted(fl, key=lambda p: order.index("src/" + p.name))
+            r = fordrun.build_fast(files, dict(display=["public", "private", "protected"], proc_internals=True, **extra_opts))
+            _ARMED[0] = False
+            return r, time.time() - t, False
+        except Timeout:
+            _ARMED[0] = False
+            return None, time.time() - t, True
+    except Timeout:  # (a second period ended while the first Timeout was on its way up)
+        _ARMED[0] = False
         return None, time.time() - t, True
     finally:
-        signal.setitimer(signal.ITIMER_VIRTUAL, 0)
-        signal.setitimer(signal.ITIMER_REAL, 0)
-        signal.signal(signal.SIGVTALRM, old_v)
-        signal.signal(signal.SIGALRM, old_r)
+        _disarm(old)
         fordrun.FILE_ORDER = None
 
 
@@ -266,6 +293,8 @@ def run_case(st: Stats, case):
     kind, detail, text, pos = case
     name = POSITIONS[pos]
     files = dict(BASE)
+    if isinstance(text, str) and "{self}" in text:
+        text = text.replace("{self}", name)
     files[f"src/{name}"] = text
     base = baseline()
     r, dt, hung = guarded_build(files)
@@ -317,6 +346,10 @@ def run_case(st: Stats, case):
         bad += 1
         st.violation("unbalanced-file-accepted", stratum, feats, inp, sorted((c, e.name) for c in ("modules", "procedures", "programs", "types") for e in getattr(r.project, c, []) if e.filename == name),
                      "the file is named in a diagnostic (and rejected, or parsed with the offending statement reported)")
+    if accepted and detail.startswith("include-itself") and name not in r.log:
+        bad += 1
+        st.violation("unbalanced-file-accepted", stratum, feats, inp, sorted((c, e.name) for c in ("modules", "procedures", "programs", "types") for e in getattr(r.project, c, []) if e.filename == name)[:6],
+                     "a file that includes itself is named in a diagnostic (and skipped)")
     if not accepted:
         if name not in r.log:
             bad += 1
@@ -474,18 +507,31 @@ def run_full_case(st: Stats, case):
     else:
         files = dict(BASE)
         name = POSITIONS["between"]
+        if isinstance(text, str) and "{self}" in text:
+            text = text.replace("{self}", name)
         files[f"src/{name}"] = text
         opts = dict(search=True)
-    old_v = signal.signal(signal.SIGVTALRM, _alarm)
-    signal.setitimer(signal.ITIMER_VIRTUAL, WATCHDOG_S * 2)
+        if kind == "extra-filetype":
+            # the same bytes in a file that is only shown (extra_filetypes), not parsed
+            del files[f"src/{name}"]
+            name = "n_bad.sh"
+            files[f"src/{name}"] = text
+            files["src/ok.sh"] = "#! a readable script\necho ok\n"
+            opts = dict(search=True, extra_filetypes=[dict(extension="sh", comment="#")])
+    old_t = _arm(WATCHDOG_S * 2, WATCHDOG_S * 40)
     hung, r = False, None
     try:
-        r = fordrun.build(files, dict(display=["public", "private", "protected"], **opts), stage="write")
+        try:
+            r = fordrun.build(files, dict(display=["public", "private", "protected"], **opts), stage="write")
+            _ARMED[0] = False
+        except Timeout:
+            _ARMED[0] = False
+            hung = True
     except Timeout:
+        _ARMED[0] = False
         hung = True
     finally:
-        signal.setitimer(signal.ITIMER_VIRTUAL, 0)
-        signal.signal(signal.SIGVTALRM, old_v)
+        _disarm(old_t)
     st.evaluations += 1
     st.transitions += 1
     stratum = f"full-run/{kind}"
@@ -587,6 +633,8 @@ def work(chunk):
 def gen_cases(tier):
     for kind in BAD_INCLUDES:
         yield ("full", "shared-include", kind, None)
+    for detail, text in (("invalid-utf8", b"#! caf\xe9 \xff\xfe script\necho x\n"), ("binary", bytes(range(256)) * 4), ("empty", ""), ("no-comments", "echo plain\n")):
+        yield ("full", "extra-filetype", detail, text)
     n_re = 0
     for kind, detail, text in corruptions(tier):
         if kind == "grammar":
